@@ -17,9 +17,14 @@ def judge(rep, verdicts, metas, also=()):
     PS.judge(rep, verdicts, metas, also=also)
 
 
+CHUNK = 1500      # scripts executed, validated and judged at a time (bounds the memory of the thorough tier)
+
+
 def run_generated(rep, name, scripts, also=()):
-    verdicts, metas = PC.run_batch(rep, scripts)
-    judge(rep, verdicts, metas, also=also)
+    for k in range(0, len(scripts), CHUNK):
+        verdicts, metas = PC.run_batch(rep, scripts[k:k + CHUNK])
+        judge(rep, verdicts, metas, also=also)
+        del verdicts, metas
     rep.part(name, scripts=len(scripts))
     if scripts:
         rep.sample({"kind": name, "meta": scripts[0][3], "script_head": scripts[0][2][:10]})
